@@ -25,6 +25,7 @@ RULE = (
     "compiled Python block). Also the programs renamed so that inputs are called _t0.._t4, and a block-size sweep (blocks of "
     "1..64 statements, rows with more temporaries than statements)."
     " Model values of three programs whose intermediates overflow to inf (1/(1+exp(896))) are compared on / off / reference at points that reach the overflow."
+    " Saturation constructs (Piecewise with comparisons) shared by several outputs, so that CSE hoists them into temporaries (Python and C++; multi-line C statements are joined before the def-use pass)."
 )
 ASSUMPTIONS = ["bounds as C01/C02; Python temporaries are observed behaviourally (a temporary used before assignment raises)"]
 REL = 1e-9
@@ -54,13 +55,15 @@ def cases(tier, seed):
     named = [space.rename_def(d, tn) for d in fam if d["name"] in TEMP_NAMED]
     # block-size sweep: blocks of 1..64 statements (n, n*n, n*k, m*n), rows with more temporaries than statements
     sizes = space.family_sizes(tier)
-    fam = fam + named + sizes
+    # saturation constructs (Piecewise with comparisons), alone and shared between outputs
+    pw = [with_sensors(d) for d in space.family_piecewise()]
+    fam = fam + named + sizes + pw
     for d in fam:
         yield {"kind": "py", "def": d, "seed": seed, "per_symbol": 2 if tier == "quick" else 3}
     # model VALUES only: intermediates that overflow (exp(896) = inf) while the value stays defined - on and off must agree
     for d in space.family_extreme():
         yield {"kind": "py-model", "def": d, "seed": seed, "per_symbol": 2 if tier == "quick" else 3}
-    sub = (fam[::3] + [d for d in fam if ("manytemps" in d["name"] or d in named[:2] or d in sizes) and d not in fam[::3]]) if tier == "quick" else fam
+    sub = (fam[::3] + [d for d in fam if ("manytemps" in d["name"] or d in named[:2] or d in sizes or d in pw) and d not in fam[::3]]) if tier == "quick" else fam
     for d in sub:
         yield {"kind": "cpp", "def": d, "seed": seed}
 
@@ -192,6 +195,14 @@ def def_use(source_text):
             nfun += 1
             while i < len(lines) and not re.match(r"^\s*return\b", lines[i]):
                 line = lines[i]
+                # a statement may span several lines (the C printer breaks conditional expressions): join up to the ';'
+                if re.match(r"^\s*(double\s+\w+|\w+\(\d+,\s*\d+\))\s*=", line) and not line.rstrip().endswith(";"):
+                    j = i
+                    while j + 1 < len(lines) and not lines[j].rstrip().endswith(";"):
+                        j += 1
+                    line = " ".join(x_.strip() for x_ in lines[i:j + 1])
+                    line = "    " + line
+                    i = j
                 m = DECL_RE.match(line)
                 a = ASSIGN_RE.match(line)
                 rhs = None
